@@ -73,7 +73,7 @@ class Z3Ops:
 
 def run(ops, text_addr, words, data, inputs, max_steps=400, conds=()):
   """execute from text_addr.  words: list of instruction words; data: {addr: word value (ops domain)}; inputs: list of
-  mngr2proc values (ops domain).  Returns a list of alternatives [(conds, outputs, final data dict, steps)]: one per
+  mngr2proc values (ops domain).  Returns a list of alternatives [(conds, outputs, final data dict, steps, inputs consumed)]: one per
   feasible combination of branch outcomes / address values.  The program ends when the PC leaves the text."""
   out = []
   init = dict(pc=text_addr, regs=[ops.const(0)] * 32, mem=dict(data), inp=0, outs=[], conds=list(conds), steps=0)
@@ -83,10 +83,10 @@ def run(ops, text_addr, words, data, inputs, max_steps=400, conds=()):
     while True:
       idx = (st['pc'] - text_addr) // 4
       if st['pc'] < text_addr or idx >= len(words) or st['steps'] >= max_steps:
-        out.append((st['conds'], st['outs'], st['mem'], st['steps'])); break
+        out.append((st['conds'], st['outs'], st['mem'], st['steps'], st['inp'])); break
       d = decode(words[idx])
       if d is None:
-        out.append((st['conds'], st['outs'], st['mem'], st['steps'])); break
+        out.append((st['conds'], st['outs'], st['mem'], st['steps'], st['inp'])); break
       st['steps'] += 1
       name, rd, rs1, rs2, imm = d
       R = st['regs']
@@ -100,7 +100,7 @@ def run(ops, text_addr, words, data, inputs, max_steps=400, conds=()):
       elif name == 'addi': wr(ops.add(R[rs1], ops.const(imm)))
       elif name == 'csrr':
         if imm != CSR_MNGR2PROC or st['inp'] >= len(inputs):
-          out.append((st['conds'], st['outs'], st['mem'], st['steps'])); break
+          out.append((st['conds'], st['outs'], st['mem'], st['steps'], st['inp'])); break
         wr(inputs[st['inp']]); st['inp'] += 1
       elif name == 'csrw':
         if imm == CSR_PROC2MNGR: st['outs'] = st['outs'] + [R[rs1]]
